@@ -1863,6 +1863,24 @@ cmd_urihelpers(void) {
     r1 = coap_uri_into_optlist(uri, s ? coap_session_get_addr_remote(s) : NULL, &chain, 1);
     if (c2)
       coap_delete_uri(c2);
+    {
+      /* what the helper put into the list, next to what it reported */
+      coap_optlist_t *o;
+      char buf[1024];
+      size_t pos = 0;
+      buf[0] = 0;
+      for (o = chain; o && pos + 600 < sizeof(buf); o = o->next) {
+        size_t i;
+        pos += (size_t)snprintf(buf + pos, sizeof(buf) - pos, "%s%u=", pos ? ";" : "", o->number);
+        for (i = 0; i < o->length && i < 256; i++)
+          pos += (size_t)snprintf(buf + pos, sizeof(buf) - pos, "%02x", o->data[i]);
+      }
+      ev_begin("urichain");
+      ev_int("r", r1);
+      ev_int("dst", s != NULL);
+      ev_str("opts", buf);
+      ev_end();
+    }
   }
   r2 = coap_path_into_optlist((const uint8_t *)"x/y/../z", 8, COAP_OPTION_LOCATION_PATH, &chain);
   r3 = coap_query_into_optlist((const uint8_t *)"a=1&b", 5, COAP_OPTION_LOCATION_QUERY, &chain);
